@@ -12,7 +12,7 @@ DEPS = {'C01': ['classes', 'dicts', 'simplify', 'shapes', 'lookup', 'values', 'i
         'C11': ['stack', 'stackadd'],
         'C12': ['stack', 'stackadd'],
         'C13': ['classes', 'simplify', 'shapes'],
-        'C14': ['filter'],
+        'C14': ['filter', 'classes', 'content'],
         'C15': ['extract'],
         'C16': ['phoenix'],
         'C17': ['orient'],
@@ -41,8 +41,9 @@ GROUP_THEOREMS = {
     'cli': ['cli_out_name_is_model'],
     'group': ['group_place_is_model', 'group_place_keeps_keys_distinct'],
     'filter': ['key_regex_filter_is_model'],
+    'content': ['filter_meta_filters_every_valid_dictionary', 'filter_meta_is_model', 'clear_slice_meta_is_model', 'get_keys_is_model'],
     'orient': ['check_voxel_order_is_model'],
-    'phoenix': ['parse_phoenix_line_is_model'],
+    'phoenix': ['parse_phoenix_line_is_model', 'parse_phoenix_prot_is_model'],
     'header': ['header_slice_times_is_model', 'header_dim_info_is_model'],
     'stackadd': ['chk_congruent_is_model', 'add_dcm_is_model'],
     'data': ['file_idx_is_model', 'file_idx_volume_is_model', 'get_data_trim_is_model'],
